@@ -109,15 +109,20 @@ func (c *controller) SetBalancer(l log.Logger, name string, svcRo *v1.Service, _
 		}
 	}
 
-	if len(prevIPs) != 0 && !containsAllIPs(c.ips.IPs(name), prevIPs) {
-		// Only reprocess all if the previous IP(s) are still contained within a pool.
-		if c.ips.PoolForIP(prevIPs) != nil {
-			// convergeBalancer may deallocate our service, or move it to
-			// other IP(s), and this means it did it.
-			// if an IP was released, it may have left room
-			// for another service, so we reprocess
-			level.Info(l).Log("event", "serviceUpdated", "msg", "removed loadbalancer from service, services will be reprocessed")
-			syncStateRes = controllers.SyncStateReprocessAll
+	// The IP(s) recorded in the status are checked too: when a previous attempt
+	// changed the allocation but failed to update the service, they are the
+	// ones that are being released now.
+	for _, ips := range [][]net.IP{prevIPs, statusIPs(svcRo)} {
+		if len(ips) != 0 && !containsAllIPs(c.ips.IPs(name), ips) {
+			// Only reprocess all if the previous IP(s) are still contained within a pool.
+			if c.ips.PoolForIP(ips) != nil {
+				// convergeBalancer may deallocate our service, or move it to
+				// other IP(s), and this means it did it.
+				// if an IP was released, it may have left room
+				// for another service, so we reprocess
+				level.Info(l).Log("event", "serviceUpdated", "msg", "removed loadbalancer from service, services will be reprocessed")
+				syncStateRes = controllers.SyncStateReprocessAll
+			}
 		}
 	}
 
@@ -141,6 +146,17 @@ func (c *controller) SetBalancer(l log.Logger, name string, svcRo *v1.Service, _
 
 	level.Info(l).Log("event", "serviceUpdated", "msg", "service is not updated")
 	return syncStateRes
+}
+
+// statusIPs returns the IPs recorded in the load balancer status of the service.
+func statusIPs(svc *v1.Service) []net.IP {
+	var res []net.IP
+	for _, ingress := range svc.Status.LoadBalancer.Ingress {
+		if ip := net.ParseIP(ingress.IP); ip != nil {
+			res = append(res, ip)
+		}
+	}
+	return res
 }
 
 // containsAllIPs tells if all the wanted IPs are part of ips.
